@@ -26,6 +26,12 @@ package validator
 //@   ensures [C11:stages] eventChan != nil ==> (chanClosed == old(chanClosed) && !evOpen && (result1 == nil ==> evNext == 2) && (result1 != nil ==> (evNext == 1 || evNext == 2)))
 //@   ensures-assumed [C18:lib-function] result1 == libRegoErr(profileText) && (result1 == nil ==> result0 != nil && deref(result0).Code == libRegoCode(profileText)) && stdout == old(stdout)
 
+//@ func prepareForEval(policy *rego.Rego) (prepared rego.PreparedEvalQuery, err error)
+//@   requires [C08:not-yet] !opaRejected
+//@   ensures [C08:rejection-is-an-error] opaRejected ==> err != nil
+//@   ensures [C08:no-evaluation] opaEvaluated == old(opaEvaluated)
+//@   ensures [C11:no-events] chanClosed == old(chanClosed) && evOpen == old(evOpen) && evNext == old(evNext) && evCur == old(evCur) && evCount == old(evCount) && evLastTime == old(evLastTime) && evClock == old(evClock)
+
 //@ func CompileRego(regoUnit *generator.RegoUnit, eventChan *chan e.Event) (*rego.PreparedEvalQuery, error)
 //@   requires regoUnit != nil
 //@   ensures [C17:non-nil] result0 != nil
